@@ -137,3 +137,423 @@ Section P.
   Proof. unfold Hd2, Hd3. dsolve. Qed.
   Lemma dH3 c t : is_derive (Hd3 c) t (Hd4 c t).
   Proof. unfold Hd3, Hd4. dsolve. Qed.
+
+  (* ---- mean value bound --------------------------------------------------------- *)
+  Definition between (a b x : R) : Prop := Rmin a b <= x <= Rmax a b.
+
+  Lemma between_ordered a b x : a <= b -> (between a b x <-> a <= x <= b).
+  Proof. intro H. unfold between. rewrite Rmin_left, Rmax_right by exact H. tauto. Qed.
+  Lemma between_sym a b x : between a b x <-> between b a x.
+  Proof. unfold between. rewrite Rmin_comm, Rmax_comm. tauto. Qed.
+
+  Lemma diff_bound (g dg : R -> R) x y M :
+    (forall z, is_derive g z (dg z)) ->
+    (forall z, between x y z -> Rabs (dg z) <= M) ->
+    Rabs (g y - g x) <= M * Rabs (y - x).
+  Proof.
+    intros Hd Hb.
+    destruct (MVT_gen g x y dg) as (c & Hc & Heq).
+    - intros z _. apply Hd.
+    - intros z _. apply (is_derive_cont g dg). apply Hd.
+    - rewrite Heq, Rabs_mult. apply Rmult_le_compat_r; [apply Rabs_pos|]. apply Hb. exact Hc.
+  Qed.
+
+  (* ---- the 1/3 panel ---------------------------------------------------------------- *)
+  Lemma G_bound_pos m h0 M : 0 <= h0 ->
+    (forall z, m - h0 <= z <= m + h0 -> Rabs (f4 z) <= M) ->
+    Rabs (G m h0) <= M / 90 * h0 ^ 5.
+  Proof.
+    intros Hh HM.
+    assert (B3 : forall t, 0 <= t <= h0 -> Rabs (G3 m t) <= 2 * M / 3 * t ^ 2).
+    { intros t [Ht0 Hth]. unfold G3.
+      assert (Hd : Rabs (f3 (m + t) - f3 (m - t)) <= M * Rabs (m + t - (m - t))).
+      { apply (diff_bound f3 f4); [exact H3|].
+        intros z Hz. apply (proj1 (between_ordered (m - t) (m + t) z ltac:(lra))) in Hz. apply HM. lra. }
+      replace (m + t - (m - t)) with (2 * t) in Hd by ring.
+      rewrite (Rabs_pos_eq (2 * t)) in Hd by lra.
+      rewrite Rabs_mult, Rabs_Ropp, (Rabs_pos_eq (t / 3)) by lra.
+      replace (2 * M / 3 * t ^ 2) with (t / 3 * (M * (2 * t))) by field.
+      apply Rmult_le_compat_l; [lra|exact Hd]. }
+    assert (Z2 : G2 m 0 = 0).
+    { unfold G2. replace (m + 0) with m by ring. replace (m - 0) with m by ring. field. }
+    assert (Z1 : G1 m 0 = 0).
+    { unfold G1. replace (m + 0) with m by ring. replace (m - 0) with m by ring. field. }
+    assert (Z0 : G m 0 = 0).
+    { unfold G. replace (m + 0) with m by ring. replace (m - 0) with m by ring. field. }
+    pose proof (growth_bound (G2 m) (G3 m) (2 * M / 3) 2 h0 (dG2 m) Z2 B3) as B2.
+    pose proof (growth_bound (G1 m) (G2 m) _ 3 h0 (dG1 m) Z1 B2) as B1.
+    pose proof (growth_bound (G m) (G1 m) _ 4 h0 (dG m) Z0 B1) as B0.
+    specialize (B0 h0 (conj Hh (Rle_refl h0))).
+    replace (M / 90 * h0 ^ 5) with (2 * M / 3 / INR 3 / INR 4 / INR 5 * h0 ^ 5); [exact B0|].
+    cbn [INR]. field.
+  Qed.
+
+  Lemma G_odd m t : G m (- t) = - G m t.
+  Proof.
+    unfold G. replace (m + - t) with (m - t) by ring. replace (m - - t) with (m + t) by ring. field.
+  Qed.
+
+  Lemma panel13 x h M :
+    (forall z, between x (x + 2 * h) z -> Rabs (f4 z) <= M) ->
+    Rabs (h / 3 * (f x + 4 * f (x + h) + f (x + 2 * h)) - (F (x + 2 * h) - F x)) <= M / 90 * Rabs h ^ 5.
+  Proof.
+    intro HM.
+    assert (E : h / 3 * (f x + 4 * f (x + h) + f (x + 2 * h)) - (F (x + 2 * h) - F x) = - G (x + h) h).
+    { unfold G. replace (x + h + h) with (x + 2 * h) by ring. replace (x + h - h) with x by ring. ring. }
+    rewrite E, Rabs_Ropp.
+    destruct (Rle_dec 0 h) as [Hh|Hh].
+    - rewrite (Rabs_pos_eq h Hh). apply G_bound_pos; [exact Hh|].
+      intros z Hz. apply HM. apply between_ordered; lra.
+    - assert (Hneg : h < 0) by lra.
+      assert (Hg : G (x + h) h = - G (x + h) (- h)) by (rewrite G_odd; ring).
+      rewrite Hg, Rabs_Ropp.
+      rewrite (Rabs_left h Hneg). apply G_bound_pos; [lra|].
+      intros z Hz. apply HM. apply between_sym. apply between_ordered; lra.
+  Qed.
+
+  (* ---- the 3/8 panel ---------------------------------------------------------------- *)
+  Lemma H_bound_pos c h0 M : 0 <= h0 ->
+    (forall z, c - 3 * h0 / 2 <= z <= c + 3 * h0 / 2 -> Rabs (f4 z) <= M) ->
+    Rabs (H c h0) <= 3 * M / 80 * h0 ^ 5.
+  Proof.
+    intros Hh HM.
+    assert (B4 : forall t, 0 <= t <= h0 -> Rabs (Hd4 c t) <= 9 / 2 * M * t ^ 1).
+    { intros t [Ht0 Hth]. unfold Hd4.
+      assert (Hd : Rabs (f3 (c + t / 2) - f3 (c - t / 2)) <= M * Rabs (c + t / 2 - (c - t / 2))).
+      { apply (diff_bound f3 f4); [exact H3|].
+        intros z Hz. apply (proj1 (between_ordered (c - t / 2) (c + t / 2) z ltac:(lra))) in Hz. apply HM. lra. }
+      replace (c + t / 2 - (c - t / 2)) with t in Hd by field.
+      rewrite (Rabs_pos_eq t Ht0) in Hd.
+      assert (Ha : Rabs (f4 (c + 3 * t / 2)) <= M) by (apply HM; lra).
+      assert (Hb : Rabs (f4 (c - 3 * t / 2)) <= M) by (apply HM; lra).
+      assert (Hc : Rabs (f4 (c + t / 2)) <= M) by (apply HM; lra).
+      assert (He : Rabs (f4 (c - t / 2)) <= M) by (apply HM; lra).
+      apply Rabs_le_between in Hd, Ha, Hb, Hc, He.
+      set (A := f3 (c + t / 2) - f3 (c - t / 2)) in *.
+      set (p := f4 (c + 3 * t / 2)) in *. set (q := f4 (c - 3 * t / 2)) in *.
+      set (r := f4 (c + t / 2)) in *. set (s := f4 (c - t / 2)) in *.
+      apply Rabs_le. rewrite pow_1. split; nra. }
+    assert (Z3 : Hd3 c 0 = 0).
+    { unfold Hd3. replace (c + 3 * 0 / 2) with c by field. replace (c - 3 * 0 / 2) with c by field.
+      replace (c + 0 / 2) with c by field. replace (c - 0 / 2) with c by field. field. }
+    assert (Z2 : Hd2 c 0 = 0).
+    { unfold Hd2. replace (c + 3 * 0 / 2) with c by field. replace (c - 3 * 0 / 2) with c by field.
+      replace (c + 0 / 2) with c by field. replace (c - 0 / 2) with c by field. field. }
+    assert (Z1 : Hd1 c 0 = 0).
+    { unfold Hd1. replace (c + 3 * 0 / 2) with c by field. replace (c - 3 * 0 / 2) with c by field.
+      replace (c + 0 / 2) with c by field. replace (c - 0 / 2) with c by field. field. }
+    assert (Z0 : H c 0 = 0).
+    { unfold H. replace (c + 3 * 0 / 2) with c by field. replace (c - 3 * 0 / 2) with c by field.
+      replace (c + 0 / 2) with c by field. replace (c - 0 / 2) with c by field. field. }
+    pose proof (growth_bound (Hd3 c) (Hd4 c) (9 / 2 * M) 1 h0 (dH3 c) Z3 B4) as B3.
+    pose proof (growth_bound (Hd2 c) (Hd3 c) _ 2 h0 (dH2 c) Z2 B3) as B2.
+    pose proof (growth_bound (Hd1 c) (Hd2 c) _ 3 h0 (dH1 c) Z1 B2) as B1.
+    pose proof (growth_bound (H c) (Hd1 c) _ 4 h0 (dH c) Z0 B1) as B0.
+    specialize (B0 h0 (conj Hh (Rle_refl h0))).
+    replace (3 * M / 80 * h0 ^ 5) with (9 / 2 * M / INR 2 / INR 3 / INR 4 / INR 5 * h0 ^ 5); [exact B0|].
+    cbn [INR]. field.
+  Qed.
+
+  Lemma H_odd c t : H c (- t) = - H c t.
+  Proof.
+    unfold H.
+    replace (c + 3 * - t / 2) with (c - 3 * t / 2) by field.
+    replace (c - 3 * - t / 2) with (c + 3 * t / 2) by field.
+    replace (c - - t / 2) with (c + t / 2) by field.
+    replace (c + - t / 2) with (c - t / 2) by field. field.
+  Qed.
+
+  Lemma panel38 e h M :
+    (forall z, between (e - h * 3) e z -> Rabs (f4 z) <= M) ->
+    Rabs (3 * h * (f (e - h * 3) + 3 * f (e - h * 2) + 3 * f (e - h * 1) + f e) / 8 - (F e - F (e - h * 3)))
+      <= 3 * M / 80 * Rabs h ^ 5.
+  Proof.
+    intro HM.
+    assert (E : 3 * h * (f (e - h * 3) + 3 * f (e - h * 2) + 3 * f (e - h * 1) + f e) / 8 - (F e - F (e - h * 3))
+                = - H (e - 3 * h / 2) h).
+    { unfold H.
+      replace (e - 3 * h / 2 + 3 * h / 2) with e by field.
+      replace (e - 3 * h / 2 - 3 * h / 2) with (e - h * 3) by field.
+      replace (e - 3 * h / 2 - h / 2) with (e - h * 2) by field.
+      replace (e - 3 * h / 2 + h / 2) with (e - h * 1) by field. field. }
+    rewrite E, Rabs_Ropp.
+    destruct (Rle_dec 0 h) as [Hh|Hh].
+    - rewrite (Rabs_pos_eq h Hh). apply H_bound_pos; [exact Hh|].
+      intros z Hz. apply HM. apply between_ordered; lra.
+    - assert (Hneg : h < 0) by lra.
+      assert (Hg : H (e - 3 * h / 2) h = - H (e - 3 * h / 2) (- h)) by (rewrite H_odd; ring).
+      rewrite Hg, Rabs_Ropp.
+      rewrite (Rabs_left h Hneg). apply H_bound_pos; [lra|].
+      intros z Hz. apply HM. apply between_sym. apply between_ordered; lra.
+  Qed.
+
+  (* ---- composite rule ------------------------------------------------------------------ *)
+  Lemma between_sub s d L l1 l2 p q e x :
+    0 <= l1 <= L -> 0 <= l2 <= L -> p = s + l1 * d -> q = s + l2 * d -> e = s + L * d ->
+    between p q x -> between s e x.
+  Proof.
+    intros [Ha1 Ha2] [Hb1 Hb2] -> -> ->. unfold between, Rmin, Rmax.
+    destruct (Rle_dec 0 d) as [Hd|Hd].
+    - repeat destruct Rle_dec; intros [Hx1 Hx2]; split; nra.
+    - assert (Hd' : d < 0) by lra.
+      repeat destruct Rle_dec; intros [Hx1 Hx2]; split; nra.
+  Qed.
+
+  Variable fm : R -> res R.
+  Hypothesis Hfm : forall x, fm x = Ok (f x).
+
+  Lemma s13_body_step' h xi sum :
+    s13_body fm h (xi, sum) =
+    Ok (xi + 2 * h, sum + (4 * f (xi + 2 * h - h) + 2 * f (xi + 2 * h))).
+  Proof.
+    unfold s13_body, ntwo. cbn [nadd nsub nmul nofZ RNum]. rewrite !Hfm. reflexivity.
+  Qed.
+
+  Lemma simpson13_err h s segs M : (1 <= segs / 2)%N ->
+    (forall z, between s (s + RN (segs / 2) * (2 * h)) z -> Rabs (f4 z) <= M) ->
+    exists v, simpson13 fm h s segs = Ok v /\
+      Rabs (v - (F (s + RN (segs / 2) * (2 * h)) - F s)) <= RN (segs / 2) * (M / 90 * Rabs h ^ 5).
+  Proof.
+    intros Hm HM. set (m2 := (segs / 2)%N) in *. set (E5 := M / 90 * Rabs h ^ 5).
+    assert (Hpanel : forall i xi, (i < N.to_nat m2)%nat -> xi = s + INR i * (2 * h) ->
+              Rabs (h / 3 * (f xi + 4 * f (xi + h) + f (xi + 2 * h)) - (F (xi + 2 * h) - F xi)) <= E5).
+    { intros i xi Hi Hxi. apply panel13. intros z Hz. apply HM.
+      assert (Hle : INR i + 1 <= RN m2).
+      { rewrite <- INR_N, <- S_INR. apply le_INR. lia. }
+      assert (H0i : 0 <= INR i) by apply pos_INR.
+      apply (between_sub s (2 * h) (RN m2) (INR i) (INR i + 1) xi (xi + 2 * h)); try assumption;
+        try lra; try reflexivity. }
+    unfold simpson13. fold m2. rewrite Hfm. cbn [bind].
+    destruct (loopN_inv
+      (fun i st => fst st = s + INR i * (2 * h) /\
+                   Rabs (h / 3 * snd st - (F (fst st) - F s + h / 3 * f (fst st))) <= INR i * E5)
+      (N.pred m2) (s13_body fm h) (s, f s)) as ([xi sum] & E & Hxi & Hsum).
+    - cbn [fst snd INR]. split; [ring|].
+      replace (h / 3 * f s - (F s - F s + h / 3 * f s)) with 0 by ring. rewrite Rabs_R0. lra.
+    - intros i [xi sum] Hi [Hx Hs]. cbn [fst snd] in *.
+      rewrite s13_body_step'. eexists. split; [reflexivity|]. cbn [fst snd]. split.
+      + rewrite S_INR, Hx. ring.
+      + replace (xi + 2 * h - h) with (xi + h) by ring.
+        replace (h / 3 * (sum + (4 * f (xi + h) + 2 * f (xi + 2 * h))) -
+                 (F (xi + 2 * h) - F s + h / 3 * f (xi + 2 * h)))
+          with ((h / 3 * sum - (F xi - F s + h / 3 * f xi)) +
+                (h / 3 * (f xi + 4 * f (xi + h) + f (xi + 2 * h)) - (F (xi + 2 * h) - F xi))) by field.
+        eapply Rle_trans; [apply Rabs_triang|]. rewrite S_INR.
+        assert (Hp := Hpanel i xi ltac:(lia) Hx). lra.
+    - rewrite E. cbn [bind]. cbv iota beta. unfold ntwo. cbn [nadd nsub nmul ndiv nofZ RNum].
+      rewrite !Hfm. cbn [bind fst snd] in *.
+      eexists. split; [reflexivity|].
+      assert (Hlast : (N.to_nat (N.pred m2) < N.to_nat m2)%nat) by lia.
+      assert (Hp := Hpanel _ xi Hlast Hxi).
+      rewrite INR_N_pred in Hxi, Hsum by exact Hm.
+      replace (s + RN m2 * (2 * h)) with (xi + 2 * h) by (rewrite Hxi; ring).
+      replace (xi + 2 * h - h) with (xi + h) by ring.
+      replace (h * (sum + (4 * f (xi + h) + f (xi + 2 * h))) / 3 - (F (xi + 2 * h) - F s))
+        with ((h / 3 * sum - (F xi - F s + h / 3 * f xi)) +
+              (h / 3 * (f xi + 4 * f (xi + h) + f (xi + 2 * h)) - (F (xi + 2 * h) - F xi))) by field.
+      eapply Rle_trans; [apply Rabs_triang|]. lra.
+  Qed.
+
+  Lemma simpson38_err h e M :
+    (forall z, between (e - h * 3) e z -> Rabs (f4 z) <= M) ->
+    exists v, simpson38 fm h (e - h * 3) (e - h * 2) (e - h * 1) e = Ok v /\
+      Rabs (v - (F e - F (e - h * 3))) <= 3 * M / 80 * Rabs h ^ 5.
+  Proof.
+    intro HM. unfold simpson38. rewrite !Hfm. cbn [bind nadd nmul ndiv nofZ RNum].
+    eexists. split; [reflexivity|]. apply panel38. exact HM.
+  Qed.
+
+  Lemma definite_integral_err a b n M : (2 <= n)%N ->
+    (forall z, between a b z -> Rabs (f4 z) <= M) ->
+    exists v, definite_integral fm a b n = Ok v /\
+      Rabs (v - (F b - F a)) <= Rabs (b - a) * ((b - a) / RN n) ^ 4 * M / 80.
+  Proof.
+    intros Hn HM.
+    assert (Hpos : 0 < RN n) by (apply RN_pos; lia).
+    assert (HM0 : 0 <= M).
+    { eapply Rle_trans; [apply Rabs_pos|]. apply (HM a). unfold between. split; [apply Rmin_l|apply Rmax_l]. }
+    unfold definite_integral.
+    destruct (n =? 1)%N eqn:E1; [apply N.eqb_eq in E1; lia|].
+    rewrite nofN_R. cbn [ndiv nsub nmul nofZ RNum].
+    set (h := (b - a) / RN n).
+    assert (Hh : b = a + RN n * h) by (subst h; field; lra).
+    clearbody h.
+    set (w := Rabs h).
+    assert (Hw : 0 <= w) by apply Rabs_pos.
+    assert (Hw5 : 0 <= w ^ 5) by (apply pow_le; exact Hw).
+    assert (Hrhs : Rabs (b - a) * h ^ 4 * M / 80 = RN n * (M * w ^ 5) / 80).
+    { replace (b - a) with (RN n * h) by (rewrite Hh; ring).
+      rewrite Rabs_mult, (Rabs_pos_eq (RN n)) by lra. fold w.
+      replace (h ^ 4) with (w ^ 4).
+      - field.
+      - subst w. rewrite RPow_abs. apply Rabs_pos_eq.
+        replace (h ^ 4) with ((h ^ 2) ^ 2) by ring. apply pow2_ge_0. }
+    rewrite Hrhs.
+    assert (HP : 0 <= M * w ^ 5) by (apply Rmult_le_pos; assumption).
+    destruct (N.even n) eqn:Ev.
+    - (* even *)
+      cbn [bind]. cbv iota beta.
+      apply N.even_spec in Ev. destruct Ev as [m Hm].
+      assert (Hdiv : (n / 2 = m)%N) by (subst n; rewrite N.mul_comm; apply N.div_mul; lia).
+      replace (1 <? n)%N with true by (symmetry; apply N.ltb_lt; lia).
+      cbv iota beta.
+      assert (Hside : (1 <= n / 2)%N) by (rewrite Hdiv; lia).
+      assert (Hend : a + RN (n / 2) * (2 * h) = b) by (rewrite Hdiv, Hh, Hm, RN_double; ring).
+      destruct (simpson13_err h a n M Hside) as (v & Ev13 & Hv).
+      { rewrite Hend. exact HM. }
+      rewrite Ev13. cbn [bind nadd n0 RNum]. eexists. split; [reflexivity|].
+      rewrite Hend, Hdiv in Hv. fold w in Hv.
+      replace (0 + v - (F b - F a)) with (v - (F b - F a)) by ring.
+      assert (Hm0 : 0 <= RN m) by (unfold RN; apply IZR_le; lia).
+      rewrite Hm, RN_double.
+      assert (0 <= RN m * (M * w ^ 5)) by (apply Rmult_le_pos; assumption).
+      lra.
+    - (* odd *)
+      assert (Hodd : N.odd n = true) by (rewrite <- N.negb_even, Ev; reflexivity).
+      apply N.odd_spec in Hodd. destruct Hodd as [m Hm].
+      assert (Hm1 : (1 <= m)%N) by lia.
+      assert (Hrem : (n - 3 = 2 * (m - 1))%N) by lia.
+      assert (Hdiv : ((n - 3) / 2 = m - 1)%N)
+        by (rewrite Hrem, N.mul_comm; apply N.div_mul; lia).
+      assert (HRn : RN n = 2 * RN (m - 1) + 3).
+      { unfold RN. replace (Z.of_N n) with (2 * Z.of_N (m - 1) + 3)%Z by lia.
+        rewrite plus_IZR, mult_IZR. reflexivity. }
+      assert (Hm0 : 0 <= RN (m - 1)) by (unfold RN; apply IZR_le; lia).
+      destruct (simpson38_err h b M) as (v38 & E38 & Hv38).
+      { intros z Hz. apply HM.
+        apply (between_sub a h (RN n) (RN n - 3) (RN n) (b - h * 3) b b); try lra; try assumption. }
+      rewrite E38. cbn [bind].
+      replace (n <? 3)%N with false by (symmetry; apply N.ltb_ge; lia).
+      cbv iota beta. cbn [bind]. cbv iota beta. cbn [nadd n0 RNum].
+      fold w in Hv38.
+      destruct (1 <? n - 3)%N eqn:E3.
+      + apply N.ltb_lt in E3.
+        assert (Hside : (1 <= (n - 3) / 2)%N) by (rewrite Hdiv; lia).
+        assert (Hend : a + RN ((n - 3) / 2) * (2 * h) = b - h * 3) by (rewrite Hdiv, Hh, HRn; ring).
+        destruct (simpson13_err h a (n - 3)%N M Hside) as (v13 & E13 & Hv13).
+        { intros z Hz. apply HM.
+          apply (between_sub a h (RN n) 0 (2 * RN (m - 1)) a (a + RN ((n - 3) / 2) * (2 * h)) b);
+            try lra; try assumption.
+          rewrite Hdiv. ring. }
+        rewrite E13. cbn [bind nadd RNum]. eexists. split; [reflexivity|].
+        rewrite Hend, Hdiv in Hv13. fold w in Hv13.
+        replace (0 + v38 + v13 - (F b - F a))
+          with ((v38 - (F b - F (b - h * 3))) + (v13 - (F (b - h * 3) - F a))) by ring.
+        eapply Rle_trans; [apply Rabs_triang|].
+        rewrite HRn.
+        assert (0 <= RN (m - 1) * (M * w ^ 5)) by (apply Rmult_le_pos; assumption).
+        lra.
+      + (* n = 3 *)
+        apply N.ltb_ge in E3. eexists. split; [reflexivity|].
+        assert (m = 1%N) by lia. subst m.
+        assert (Ha : b - h * 3 = a) by (rewrite Hh, HRn; change (RN (1 - 1)) with 0; ring).
+        rewrite Ha in Hv38.
+        replace (0 + v38 - (F b - F a)) with (v38 - (F b - F a)) by ring.
+        rewrite HRn. change (RN (1 - 1)) with 0. lra.
+  Qed.
+End P.
+
+(* ---- the integral: RInt f a b = F b - F a, and an antiderivative always exists ---------- *)
+Lemma RInt_antiderivative (F f f1 : R -> R) a b :
+  (forall x, is_derive F x (f x)) -> (forall x, is_derive f x (f1 x)) -> RInt f a b = F b - F a.
+Proof.
+  intros HF H0. apply is_RInt_unique. apply (is_RInt_derive F f).
+  - intros x _. apply HF.
+  - intros x _. apply (ex_derive_continuous f x). exists (f1 x). apply H0.
+Qed.
+
+Lemma antiderivative_exists (f f1 : R -> R) a :
+  (forall x, is_derive f x (f1 x)) -> forall x, is_derive (fun y => RInt f a y) x (f x).
+Proof.
+  intros H0 x.
+  assert (Hc : forall z, continuous f z).
+  { intro z. apply (ex_derive_continuous f z). exists (f1 z). apply H0. }
+  apply (is_derive_RInt f (fun y => RInt f a y) a x).
+  - apply filter_forall. intro y. apply (@RInt_correct R_CompleteNormedModule). apply (@ex_RInt_continuous R_CompleteNormedModule). intros z _. apply Hc.
+  - apply Hc.
+Qed.
+
+(* ---- C05: the error clause for every C^4 integrand ---------------------------------------- *)
+Lemma c05_simpson_error : forall (fm : R -> res R) (f f1 f2 f3 f4 : R -> R),
+  (forall x, fm x = Ok (f x)) ->
+  (forall x, is_derive f x (f1 x)) -> (forall x, is_derive f1 x (f2 x)) ->
+  (forall x, is_derive f2 x (f3 x)) -> (forall x, is_derive f3 x (f4 x)) ->
+  forall (a b : R) (n : N) (M : R), (2 <= n)%N ->
+  (forall x, Rmin a b <= x <= Rmax a b -> Rabs (f4 x) <= M) ->
+  exists v, definite_integral fm a b n = Ok v /\
+    Rabs (v - RInt f a b) <= Rabs (b - a) * ((b - a) / IZR (Z.of_N n)) ^ 4 * M / 80.
+Proof.
+  intros fm f f1 f2 f3 f4 Hfm H0 H1 H2 H3 a b n M Hn HM.
+  pose (F := fun y => RInt f a y).
+  assert (HF : forall x, is_derive F x (f x)) by (apply (antiderivative_exists f f1 a H0)).
+  rewrite (RInt_antiderivative F f f1 a b HF H0).
+  apply (definite_integral_err F f f1 f2 f3 f4 HF H0 H1 H2 H3 fm Hfm a b n M Hn). exact HM.
+Qed.
+
+(* ---- every SimplePolynomial (any number of coefficients) ---------------------------------- *)
+Fixpoint psum (cs : list R) (i : nat) (x : R) : R :=
+  match cs with
+  | [] => 0
+  | c :: cs' => c * x ^ i + psum cs' (S i) x
+  end.
+
+Lemma fold_left_Rplus_acc (l : list R) : forall acc, fold_left Rplus l acc = acc + fold_right Rplus 0 l.
+Proof.
+  induction l as [|y l IH]; intro acc; cbn [fold_left fold_right]; [ring|]. rewrite IH. ring.
+Qed.
+
+Lemma eval_terms_psum x cs : forall i, fold_right Rplus 0 (eval_terms_from x i cs) = psum cs i x.
+Proof.
+  induction cs as [|c cs IH]; intro i; cbn [eval_terms_from fold_right psum]; [reflexivity|].
+  rewrite IH, npowi_R_nat. reflexivity.
+Qed.
+
+Lemma eval_simple_psum (p : spoly R) x : eval_simple p x = psum (s_coefs p) 0 x.
+Proof.
+  unfold eval_simple. cbn [nadd nsum0 RNum].
+  rewrite fold_left_Rplus_acc, eval_terms_psum. ring.
+Qed.
+
+Lemma psum_derive cs : forall i x,
+  is_derive (psum cs (S i)) x (psum (deriv_coefs_from (S i) cs) i x).
+Proof.
+  induction cs as [|c cs IH]; intros i x.
+  - cbn [psum deriv_coefs_from]. apply (is_derive_const 0 x).
+  - cbn [deriv_coefs_from]. unfold nofnat. cbn [nmul nofZ RNum].
+    change (psum (c :: cs) (S i)) with (fun y => c * y ^ S i + psum cs (S (S i)) y).
+    change (psum (c * IZR (Z.of_nat (S i)) :: deriv_coefs_from (S (S i)) cs) i x)
+      with (c * IZR (Z.of_nat (S i)) * x ^ i + psum (deriv_coefs_from (S (S i)) cs) (S i) x).
+    apply (is_derive_plus (fun y => c * y ^ S i) (psum cs (S (S i)))); [|apply IH].
+    auto_derive; [exact Logic.I|]. rewrite <- INR_IZR_INZ.
+    change (match i with | 0%nat => 1 | S _ => INR i + 1 end) with (INR (S i)). cbn [pred]. ring.
+Qed.
+
+Lemma eval_simple_derive (p : spoly R) x :
+  is_derive (eval_simple p) x (eval_simple (simple_derivative p) x).
+Proof.
+  apply (is_derive_ext (psum (s_coefs p) 0)); [intro t; symmetry; apply eval_simple_psum|].
+  rewrite eval_simple_psum. unfold simple_derivative. cbn [s_coefs].
+  destruct (s_coefs p) as [|c0 cs].
+  - cbn [psum]. apply (is_derive_const 0 x).
+  - change (psum (c0 :: cs) 0) with (fun y => c0 * y ^ 0 + psum cs 1 y).
+    replace (psum (deriv_coefs_from 1 cs) 0 x) with (0 + psum (deriv_coefs_from 1 cs) 0 x) by ring.
+    apply (is_derive_plus (fun y => c0 * y ^ 0) (psum cs 1)); [|apply psum_derive].
+    auto_derive; [exact Logic.I|]. ring.
+Qed.
+
+Definition sderiv4 (p : spoly R) : spoly R :=
+  simple_derivative (simple_derivative (simple_derivative (simple_derivative p))).
+
+Lemma c05_simpson_error_simple : forall (p : spoly R) (a b : R) (n : N) (M : R), (2 <= n)%N ->
+  (forall x, Rmin a b <= x <= Rmax a b -> Rabs (eval_simple (sderiv4 p) x) <= M) ->
+  exists v, definite_integral (s_eval_univariate p) a b n = Ok v /\
+    Rabs (v - RInt (eval_simple p) a b) <= Rabs (b - a) * ((b - a) / IZR (Z.of_N n)) ^ 4 * M / 80.
+Proof.
+  intros p a b n M Hn HM.
+  apply (c05_simpson_error (s_eval_univariate p) (eval_simple p)
+           (eval_simple (simple_derivative p))
+           (eval_simple (simple_derivative (simple_derivative p)))
+           (eval_simple (simple_derivative (simple_derivative (simple_derivative p))))
+           (eval_simple (sderiv4 p))); try (intro x; apply eval_simple_derive); try assumption.
+  intro x. reflexivity.
+Qed.
